@@ -3,7 +3,7 @@
 //! `hx` over sequences of replicated `Request`s (create node / create edge — also to missing
 //! nodes — / delete / update node and edge properties, on 2 ids). Every explored history is
 //! applied through `GraphStateMachine::apply` to R state machines on fresh directories
-//! (R = 2 quick, 3 thorough); each replica is then closed, reopened and `recover`ed. All
+//! (depth 2, R = 2 quick; depth 4, R = 3 thorough); each replica is then closed, reopened and `recover`ed. All
 //! recovered graphs must be equal to each other and to the persistence-level reference applied
 //! to the requests that were not answered `Error`; a request answered `Error` has no effect.
 use samyama::graph::{PropertyMap, PropertyValue};
@@ -262,10 +262,66 @@ impl Model for M {
     }
 }
 
+/// `hx::explore` with the successors of a level computed in parallel over (history, op) pairs
+/// instead of over histories: a transition costs several RocksDB open/close cycles and the
+/// frontiers are small, so per-history parallelism would leave most cores idle. Same
+/// level-synchronous BFS, same deterministic sequential dedup in frontier order, same
+/// statistics; the successor of a violating transition is not expanded.
+fn explore_flat(m: &M, max_depth: usize, mut on_violation: impl FnMut(hx::Violation<Op>)) -> hx::Stats {
+    use rayon::prelude::*;
+    let mut stats = hx::Stats::default();
+    let mut seen: std::collections::HashSet<G> = std::collections::HashSet::new();
+    seen.insert(m.key(&m.init()));
+    stats.states = 1;
+    stats.per_depth_states.push(1);
+    let mut frontier: Vec<Vec<Op>> = vec![vec![]];
+    for depth in 1..=max_depth {
+        if frontier.is_empty() {
+            break;
+        }
+        let tasks: Vec<(usize, Op)> = frontier.iter().enumerate().flat_map(|(i, h)| m.ops(&hx::rebuild(m, h)).into_iter().map(move |o| (i, o))).collect();
+        let results: Vec<(Vec<Op>, Option<G>, Step)> = tasks
+            .par_iter()
+            .map(|(i, op)| {
+                let mut st = hx::rebuild(m, &frontier[*i]);
+                let step = m.apply(&mut st, op, true);
+                let key = if step.violations.is_empty() { Some(m.key(&st)) } else { None };
+                (st.hist.clone(), key, step)
+            })
+            .collect();
+        let mut next = vec![];
+        let mut new_states = 0u64;
+        for (hist, key, step) in results {
+            stats.transitions += 1;
+            let opname = m.op_name(hist.last().unwrap());
+            *stats.outcomes_per_op.entry(opname).or_default().entry(step.outcome.clone()).or_default() += 1;
+            if !step.violations.is_empty() {
+                stats.pruned_after_violation += 1;
+                for (sig, msg) in step.violations {
+                    on_violation(hx::Violation { sig, msg, history: hist.clone() });
+                }
+                continue;
+            }
+            if seen.insert(key.unwrap()) {
+                stats.states += 1;
+                new_states += 1;
+                if stats.samples.len() < 3 && (depth == 1 || depth == max_depth) {
+                    stats.samples.push(json!({"depth": depth, "history": hist.iter().map(|o| format!("{:?}", o)).collect::<Vec<_>>(), "last_outcome": step.outcome}));
+                }
+                next.push(hist);
+            }
+        }
+        stats.per_depth_states.push(new_states);
+        stats.max_depth = depth;
+        frontier = next;
+    }
+    stats
+}
+
 fn main() {
     run_check("C32", Level::ModelChecking, |ctx| {
         let (depth, replicas) = match ctx.tier {
-            svmc::Tier::Quick => (3, 2),
+            svmc::Tier::Quick => (2, 2),
             svmc::Tier::Thorough => (4, 3),
         };
         if let Some(p) = ctx.replay.clone() {
@@ -282,7 +338,7 @@ fn main() {
             return;
         }
         let m = M { replicas, verbose: false };
-        let stats = hx::explore(&m, depth, 10_000_000, |v| {
+        let stats = explore_flat(&m, depth, |v| {
             ctx.violation(&v.sig, v.msg, json!({"history": v.history.iter().map(|o| format!("{:?}", o)).collect::<Vec<_>>(), "replicas": replicas}));
         });
         hx::report(ctx, &stats, "Request::{CreateNode{p:0}, CreateEdge{1->2,w:0} (endpoints may be missing), DeleteNode, DeleteEdge, UpdateNodeProperties{p:1}, UpdateEdgeProperties{w:1}} x ids {1,2}");
